@@ -83,6 +83,9 @@ def check_case(case, stats=None):
     reg = build(case)
     h = HyperLogLog(p, 0)
     h.registers[:] = reg
+    decoy = HyperLogLog(7 if p != 7 else 13, 3)  # a younger sketch of another precision exists while h is queried
+    decoy.add(b"decoy")
+    decoy.query()
     got = float(sut(h.query))
     thr = float(sub_algorithm_threshold[p - 7])
     want, branch, margin = models.hllpp_estimate(reg, p, thr, raw_estimate[p - 7], bias_data[p - 7])
